@@ -59,6 +59,35 @@ def _api_paths(ctx, m=None):
     return out
 
 
+def _ring_ranges(ctx, m, cap):
+    from .rules_api import _ring_setup, RING, _const
+    if not cap:
+        raise AnalysisBroken('anchor vanished: capacity of the event ring')
+    uidle = m.prog.enum_types['cat_unsolicited_state']['consts']['CAT_UNSOLICITED_STATE_IDLE']
+    rd = m.prog.enums['CAT_CMD_TYPE_READ']
+    n = 0
+    for h in range(cap):
+        for t in range(cap):
+            for c in range(cap + 1):
+                def setup(s, h=h, t=t, c=c):
+                    _ring_setup(h, t, c)(s)
+                    s.pnull['XCMD'] = False
+                    s.mem[RING + ('state',)] = Lin.c(uidle)
+                    s.mem[RING + ('cmd',)] = ('null',)
+                for what, f, args in (('push', 'cat_trigger_unsolicited_event', [SELF, ('obj', 'XCMD'), Lin.c(rd)]), ('pop', m.ms.evt_dispatch, [SELF])):
+                    for s, rv in m.run(f, args, setup=setup):
+                        n += 1
+                        nh = _const(s.mem.get(RING + ('unsolicited_cmd_buffer_head',)))
+                        nt = _const(s.mem.get(RING + ('unsolicited_cmd_buffer_tail',)))
+                        nc = _const(s.mem.get(RING + ('unsolicited_cmd_buffer_items_count',)))
+                        ok = nh is not None and nt is not None and nc is not None and 0 <= nh < cap and 0 <= nt < cap and 0 <= nc <= cap
+                        ctx.check('bound', ok, ctx.site(f, m.fn_line(f)),
+                                  '[capacity %d] %s from (head %d, tail %d, count %d) leaves (head %s, tail %s, count %s): the next access to the ring array is out of bounds'
+                                  % (cap, what, h, t, c, nh, nt, nc))
+    ctx.extra.setdefault('ring_range_cases', 0)
+    ctx.extra['ring_range_cases'] += n
+
+
 def _ob_site(e):
     return 'src/cat.c:%s:%s' % (e.get('line'), e.get('fn'))
 
@@ -90,6 +119,10 @@ def c03(ctx):
     # (bounds of both subscripts for all sizes; what they compute, on a small scope) are checked here
     from .rules_fsm import flatidx
     flatidx(ctx)
+    # the event ring is indexed by head and tail without a test: the environment model takes
+    # "head, tail < capacity, count <= capacity" for granted in every state.  That this is an inductive
+    # invariant of the two operations is checked here (every state in those ranges, this configuration's capacity)
+    _ring_ranges(ctx, m, m.ms.model.ring_cap)
 
     def take(events, where):
         nonlocal n_ob
@@ -122,6 +155,7 @@ def c03(ctx):
         for cap, mod in ring_models(ctx):
             if mod is ctx.model:
                 continue
+            _ring_ranges(ctx, mod, cap)
             ex, ts = transitions(ctx, 'evt', mod)
             for t in ts:
                 take(t.events, 'cap%d:%s' % (cap, short(t.frm)))
@@ -502,12 +536,21 @@ def c08(ctx):
     # gates: formatting needs something readable, decoding something writable
     for t in transitions(ctx, 'cmd')[1]:
         preds = [e for e in t.events if e['k'] == 'exit' and e['name'] in _access_predicates(ctx)]
+
+        def said(e, truth):
+            # what the predicate returned on this transition: a constant, or a value the path pins down
+            r = e['ret']
+            if not is_lin(r):
+                return False
+            if r.is_const():
+                return (r.const != 0) == truth
+            return t.raw.facts.lower(r) >= 1 if truth else t.raw.facts.upper(r) <= 0
         if t.to.endswith('STATE_FORMAT_READ_ARGS') and not t.frm.endswith('FORMAT_READ_ARGS'):
-            ctx.check('gates', any(cval(e['ret']) == 1 for e in preds), t.site(), 'READ formatting starts without a readable variable')
+            ctx.check('gates', any(said(e, True) for e in preds), t.site(), 'READ formatting starts without a readable variable')
         if t.to.endswith('STATE_PARSE_WRITE_ARGS') and t.frm.endswith('PARSE_COMMAND_ARGS'):
-            ctx.check('gates', any(cval(e['ret']) == 1 for e in preds), t.site(), 'WRITE decoding starts without a writable variable')
+            ctx.check('gates', any(said(e, True) for e in preds), t.site(), 'WRITE decoding starts without a writable variable')
         if t.to.endswith('STATE_READ_LOOP') and t.frm.endswith('COMMAND_FOUND'):
-            ctx.check('gates', all(cval(e['ret']) == 0 for e in preds) and preds, t.site(), 'the read handler loop is entered past readable variables')
+            ctx.check('gates', all(said(e, False) for e in preds) and preds, t.site(), 'the read handler loop is entered past readable variables')
     _access_predicate_table(ctx)
     return ctx
 
@@ -562,31 +605,50 @@ def _access_predicates(ctx):
 
 
 def _access_predicate_table(ctx):
+    """what the predicate computes, on a small scope: variable tables of 0-3 entries with every
+    combination of access modes, for both requested kinds; the body is interpreted with the table pinned
+    and the loop unrolled and must answer "some entry is read-write or of the requested kind" """
+    import itertools
     m = ctx.model
     E = m.prog.enums
-    RW = E['CAT_VAR_ACCESS_READ_WRITE']
-    for p in _access_predicates(ctx):
-        for want in (E['CAT_VAR_ACCESS_READ_ONLY'], E['CAT_VAR_ACCESS_WRITE_ONLY']):
-            def setup(s):
+    RW, RO, WO = E['CAT_VAR_ACCESS_READ_WRITE'], E['CAT_VAR_ACCESS_READ_ONLY'], E['CAT_VAR_ACCESS_WRITE_ONLY']
+    it = m.ms.it
+    old = (it.pin_names, it.unroll)
+    it.pin_names, it.unroll = True, 8
+    n = 0
+    try:
+        for p in _access_predicates(ctx):
+            site = ctx.site(p, m.fn_line(p))
+            bad = 0
+            for want in (RO, WO):
+                for k in range(0, 4):
+                    for modes in itertools.product((RW, RO, WO), repeat=k):
+                        def setup(s, modes=modes, k=k):
+                            s.pnull['XC'] = False
+                            s.facts.iv['XC.var_num'] = (k, k)
+                            for i, a in enumerate(modes):
+                                s.facts.iv['XC.var[%d].access' % i] = (a, a)
+                        outs = m.run(p, [SELF, ('obj', 'XC'), Lin.c(want)], setup=setup)
+                        got = sorted(set(cval(rv) if cval(rv) is not None else str(rv) for s, rv in outs), key=str)
+                        exp = 1 if any(a in (RW, want) for a in modes) else 0
+                        n += 1
+                        if got != [exp] and bad < 3:
+                            bad += 1
+                            ctx.check('gates', False, site, 'for a table with access modes %s and requested kind %s the access predicate returns %s (expected %d)'
+                                      % (list(modes), want, got, exp))
+            # a command without a table has nothing accessible
+            def setup0(s):
                 s.pnull['XC'] = False
-            outs = m.run(p, [SELF, ('obj', 'XC'), Lin.c(want)], setup=setup)
-            for s, rv in outs:
-                evs = trace_events(s.trace)
-                lds = [e['obj'] for e in evs if e['k'] == 'ldi' and e['field'] == 'access']
-                site = ctx.site(p, m.fn_line(p))
-                def possible(o):
-                    lo, hi = s.facts.iv.get(o + '.access', (-INF, INF))
-                    if lo == -INF or hi == INF:
-                        return None
-                    return set(v for v in range(int(lo), int(hi) + 1) if v not in s.facts.ex.get(o + '.access', ()))
-                if cval(rv) == 1:
-                    ok = any(possible(o) is not None and possible(o) <= {RW, want} for o in lds)
-                    ctx.check('gates', ok, site, 'the access predicate reports a match without a read-write or matching variable')
-                elif cval(rv) == 0:
-                    bad = [o for o in lds if possible(o) is not None and possible(o) <= {RW, want}]
-                    ctx.check('gates', not bad, site, 'the access predicate reports no match although %s qualifies' % bad[:2])
-                else:
-                    ctx.check('gates', False, site, 'the access predicate returns %s' % (rv,))
+                s.pnull['XC.var'] = True
+            for want in (RO, WO):
+                outs = m.run(p, [SELF, ('obj', 'XC'), Lin.c(want)], setup=setup0)
+                got = sorted(set(cval(rv) for s, rv in outs), key=str)
+                n += 1
+                ctx.check('gates', got == [0], site, 'without a variable table the access predicate returns %s' % got)
+    finally:
+        it.pin_names, it.unroll = old
+    ctx.instance('gates', n)
+    ctx.extra['access_predicate_cases'] = n
 
 
 RULES = {'C03': c03, 'C04': c04, 'C05': c05, 'C06': c06, 'C08': c08}
